@@ -72,6 +72,30 @@ Theorem c17_std_nostd_agree_on_unit_bases :
     fpowi prec emax Hprec Hmax LibStd (fone prec emax Hprec Hmax) e = fpowi prec emax Hprec Hmax LibCore (fone prec emax Hprec Hmax) e.
 Proof. intros. rewrite !Proofs.FloatLemmas.fpowi_one. reflexivity. Qed.
 
+(* ... and that is the only way the two integer-power algorithms can differ: for a NON-NEGATIVE exponent they perform the same
+   multiplications in the same order (the same chain of squarings, the product of the squares at the set bits from the low bit
+   up; std multiplies the first into 1, which is exact), for every float and any precision.  Hence with no negative exponent in
+   the dimension, construction, read-back and re-basing are bit-identical with and without std in EVERY base-unit set; the
+   known class nostd-powi is confined to dimensions with a negative exponent on a non-unit base unit (1 / x^n vs (1/x)^n). *)
+From UomV Require Import Proofs.PowiAgree Model.Conv.
+Theorem c17_std_nostd_powi_agree_nonneg :
+  forall prec emax (Hprec : Prec_gt_0 prec) (Hmax : Prec_lt_emax prec emax) (x : binary_float prec emax) e,
+    (0 <= e < 2 ^ 31)%Z -> fpowi prec emax Hprec Hmax LibStd x e = fpowi prec emax Hprec Hmax LibCore x e.
+Proof. intros prec emax Hprec Hmax x e. exact (fpowi_std_core_agree_nonneg prec emax Hprec Hmax x e). Qed.
+
+Theorem c17_std_nostd_conversions_agree_nonneg :
+  forall prec emax (Hprec : Prec_gt_0 prec) (Hmax : Prec_lt_emax prec emax) U Ur d k c v,
+    small_nonneg d ->
+    to_base (CFfloat prec emax Hprec Hmax LibStd) U d k c v = to_base (CFfloat prec emax Hprec Hmax LibCore) U d k c v
+    /\ from_base (CFfloat prec emax Hprec Hmax LibStd) U d k c v = from_base (CFfloat prec emax Hprec Hmax LibCore) U d k c v
+    /\ change_base (CFfloat prec emax Hprec Hmax LibStd) U Ur d v = change_base (CFfloat prec emax Hprec Hmax LibCore) U Ur d v.
+Proof.
+  intros prec emax Hprec Hmax U Ur d k c v Hd.
+  split; [exact (to_base_std_core_agree prec emax Hprec Hmax U d k c v Hd)|].
+  split; [exact (from_base_std_core_agree prec emax Hprec Hmax U d k c v Hd)|].
+  exact (change_base_std_core_agree prec emax Hprec Hmax U Ur d v Hd).
+Qed.
+
 (* ---- each autoconvert body in the source has exactly one not_autoconvert twin, which is the same expression
    without the re-basing, and conversely (Gen/OpsSrc.v is regenerated from the source on every run): disabling
    the feature cannot change what a same-base program computes ---- *)
